@@ -14,7 +14,7 @@ class RowStream(AlignStream):
     # (AlignStream's prelude is overridden below)
     name = 'align_rows'
     weights = dict(realistic=2, blocks=5, dense=5, boundary=1, folding=2, fragment=2)
-    quick_n, thorough_n = 6000, 100000
+    quick_n, thorough_n = 6000, 60000
     prelude = pl.ALIGN_CHECK_C01
 
     def oracle(self, case, out):
